@@ -41,6 +41,9 @@ type TransactionImpl struct {
 	// Stats collector
 	stats StatsCollector
 
+	// Asked before the buffered writes are applied; nil means no guard
+	writeGuard func() error
+
 	// TTL tracking
 	creationTime   time.Time
 	lastActiveTime time.Time
@@ -233,6 +236,19 @@ func (tx *TransactionImpl) Commit() error {
 		}
 
 		return nil
+	}
+
+	// The engine may have become read-only since this transaction began: its
+	// writes must not reach the storage then. The transaction is over either way.
+	if tx.buffer.Size() > 0 && tx.writeGuard != nil {
+		if guardErr := tx.writeGuard(); guardErr != nil {
+			tx.buffer.Clear()
+			tx.releaseWriteLock()
+			if tx.stats != nil {
+				tx.stats.IncrementTxAborted()
+			}
+			return guardErr
+		}
 	}
 
 	// For read-write transactions, apply the changes
